@@ -73,6 +73,26 @@
 //! | map, with and without the other bounds, on arrays and strings; T = that bound: the engine     |
 //! | names the bound itself)       | Rendering | Contains T                                        |
 //!
+//! | set-filter-chain (`{% set x | f1 | f2 … %}…{% endset %}`, 2-4 filters, the first / a later   |
+//! | one failing; T = the call of the filter that PRODUCED the refused value — the previous        |
+//! | filter, or the first filter when the captured text itself is refused — and for a missing      |
+//! | argument the failing filter's own call; never a filter that did not take part)                |
+//! |                               | Rendering | Contains T                                        |
+//!
+//! Names: in one set out of five the name of the parent / component file is a SUFFIX of the name
+//! of the template extending it / calling into it (`base.html` ← `admin/base.html`, `card.html`
+//! used by `ui/card.html`, `xbase.html`; `naming.*` in the histogram).
+//!
+//! File route: one syntax fault in four and one rendering fault in ten (those without a history)
+//! are written to `temp_dir()/tera_verif_c12_<pid>/c<n>/f<i>.tpl` and registered through
+//! `add_template_files([(path, Some(name)) …])`: the error must carry the registered NAME, never
+//! the path. Every tenth end-of-source case goes through `add_template_file(path, None)` (the name
+//! IS the path) or `(path, Some(name))`. Directories are removed after each case and at the end of
+//! the run (`file-route.*`; the replay records `route`).
+//!
+//! History shapes also include rejected batches that hold the redefined name TWICE (two shifted
+//! versions in either order; rejected by a third member or by the second copy; early and late).
+//!
 //! Source prefixes: one template in five BEGINS with a byte order mark (also twice, followed by a
 //! newline), U+200B, U+00A0, `é` or a 4-byte character (a child template only with U+00A0: nothing
 //! but white space may precede `extends`); faults follow on line 1 and on later lines. Everything
@@ -199,6 +219,9 @@ struct SlotInfo {
 struct TSet {
     /// custom delimiters the set is spelled in (None = the default ones)
     delims: Option<D>,
+    /// 0 = registered with `add_raw_templates`, 1 = written to disk and registered with
+    /// `add_template_files([(path, Some(name)) …])`, names differing from the paths
+    route: u8,
     tpls: Vec<TplB>,
     entry: usize,
     slots: Vec<SlotInfo>,
@@ -579,6 +602,21 @@ fn gen_set(rng: &mut Rng) -> TSet {
     let inc1_name = *rng.pick(&["inc1.html", "partials/nav.html"]);
     let inc2_name = "partials/deep/inner.txt";
     let comps_name = *rng.pick(&["comps.html", "ui/components.html"]);
+    // one set in five: the name of a parent / component file is a SUFFIX of the name of the
+    // template that extends it / calls into it (same basename in another directory, or one more
+    // leading character)
+    let (root_name, child_name, inc1_name, inc2_name, comps_name) = if rng.chance(1, 5) {
+        match (inherit, rng.below(3)) {
+            (true, 0) => ("base.html", "admin/base.html", "x/admin/base.html", "partials/deep/inner.txt", "xbase.html"),
+            (true, 1) => ("base.html", "xbase.html", "partials/e.html", "deep/xe.html", "e.html"),
+            (true, _) => ("layouts/card.html", "ui/layouts/card.html", "partials/card.html", "xcard.html", "card.html"),
+            (false, 0) => ("ui/card.html", "unused.html", "partials/card.html", "xcard.html", "card.html"),
+            (false, 1) => ("xcard.html", "unused.html", "a/xcard.html", "b/a/xcard.html", "card.html"),
+            (false, _) => ("page.html", "unused.html", "inc/ge.html", "inc/page.html", "ge.html"),
+        }
+    } else {
+        (root_name, child_name, inc1_name, inc2_name, comps_name)
+    };
 
     // blocks of the root and which ones the child overrides (with / without super())
     let blocks: Vec<&str> = if rng.chance(1, 2) { vec!["head", "main", "foot"] } else { vec!["head", "main"] };
@@ -838,7 +876,7 @@ fn gen_set(rng: &mut Rng) -> TSet {
         tpls.push(TplB { name: "wrap.html".to_string(), pieces: vec![text("{% component wrapq() %}<w>{{ body }}</w>{% endcomponent wrapq %}")] });
     }
     let slots = g.slots;
-    TSet { delims: None, tpls, entry, slots, units, has_comp_q: has_q }
+    TSet { delims: None, route: 0, tpls, entry, slots, units, has_comp_q: has_q }
 }
 
 // ------------------------------------------------------------------ faults
@@ -1013,6 +1051,21 @@ fn gen_fault(rng: &mut Rng, set: &TSet, slot: usize, after: &str, forced: Option
             // the value comes out of a filter: the engine reports the filter segment only
             ("not-iterable", "{% for q in \"é😀\" | length %}x{% else %}y{% endfor %}".to_string(), "\"é😀\" | length", Overlaps),
             ("kv-on-array", "{% for k, v in arr %}x{% endfor %}".to_string(), "arr", Contains),
+            // set block with a chain of filters. A value-kind failure is reported on the producer of
+            // the value: the previous filter's call, or the FIRST filter's call when the captured
+            // text itself is refused; a missing argument on the failing filter's own call. Never on a
+            // filter that did not take part.
+            ("set-filter-chain", "{% set zq | round | upper %}abc{% endset %}".to_string(), "round", Contains),
+            ("set-filter-chain", "{% set zq | join(sep=\",\") | upper | trim %}é{% endset %}".to_string(), "join(sep=\",\")", Contains),
+            ("set-filter-chain", "{% set zq | keys | length %}abc{% endset %}".to_string(), "keys", Contains),
+            ("set-filter-chain", "{% set zq | truncate(length=\"20\") | upper %}abc{% endset %}".to_string(), "truncate(length=\"20\")", Contains),
+            ("set-filter-chain", "{% set zq | round | trim | upper | lower %}x{% endset %}".to_string(), "round", Contains),
+            ("set-filter-chain", "{% set zq\n | nth(n=1)\n | upper %}abc{% endset %}".to_string(), "nth(n=1)", Contains),
+            ("set-filter-chain", "\t{%- set zq | first | trim | length -%}é😀{% endset %}".to_string(), "first", Contains),
+            ("set-filter-chain", "{% set zq | upper | round %}abc{% endset %}".to_string(), "upper", Contains),
+            ("set-filter-chain", "{% set zq | trim | upper | keys %}abc{% endset %}".to_string(), "upper", Contains),
+            ("set-filter-chain", "{% set zq | upper | trim | split %}abc{% endset %}".to_string(), "split", Contains),
+            ("set-filter-chain", "{% set zq | upper | replace(from=\"a\") | trim %}abc{% endset %}".to_string(), "replace(from=\"a\")", Contains),
             // faults inside nested bodies: filter sections, set blocks, for-else, elif, nested loops
             ("div-zero", "{% filter upper %}é {{ 1 / 0 }}{% endfilter %}".to_string(), "0", Contains),
             ("filter-wrong-arg-type", "{% filter truncate(length=\"x\") %}abc{% endfilter %}".to_string(), "{% filter truncate(length=\"x\") %}abc{% endfilter %}", Overlaps),
@@ -1207,12 +1260,12 @@ fn all_classes() -> Vec<&'static str> {
         "in-non-container", "spread-non-array", "component-bad-call", "not-iterable", "kv-on-array", "super-misuse", "unexpected-char",
         "unterminated-string", "bad-escape", "unterminated-var", "unterminated-tag", "missing-end-tag", "unknown-tag", "elif-after-else",
         "extends-misplaced", "duplicate-block", "int-literal-too-large", "empty-expr", "missing-operand", "stray-end-tag", "too-deep",
-        "unknown-name", "parser-misc", "unterminated-comment", "unterminated-raw", "component-attr", "component-call-misc", "component-def", "reserved-name", "component-stray-token", "bad-slice-bound",
+        "unknown-name", "parser-misc", "unterminated-comment", "unterminated-raw", "component-attr", "component-call-misc", "component-def", "reserved-name", "component-stray-token", "bad-slice-bound", "set-filter-chain",
     ]
 }
 
 fn is_render_class(c: &str) -> bool {
-    if c == "bad-slice-bound" {
+    if c == "bad-slice-bound" || c == "set-filter-chain" {
         return true;
     }
     let i = all_classes().iter().position(|x| *x == c).unwrap_or(usize::MAX);
@@ -1249,6 +1302,8 @@ struct Case {
     history: String,
     /// custom delimiters set on the instance before anything is added (None = default)
     delims: Option<D>,
+    /// 0 = `add_raw_templates`, 1 = files on disk through `add_template_files` with names
+    route: u8,
 }
 
 #[derive(Clone, Debug)]
@@ -1261,7 +1316,7 @@ struct AddStep {
 #[derive(Clone, Debug)]
 struct HistSpec {
     /// 0 = batch rejected late (reference check), 1 = batch rejected early (syntax error),
-    /// 2 = accepted replacement
+    /// 2 = accepted replacement, 3-6 = rejected batch holding the redefined name twice
     kind: u8,
     /// index of the template that is redefined with its content shifted
     target: usize,
@@ -1286,6 +1341,19 @@ fn apply_history(case: &mut Case, h: &HistSpec) {
         0 | 1 => {
             case.adds = vec![first, AddStep { templates: vec![(tname.clone(), shifted), h.broken.clone()], expect_ok: false }];
             case.history = format!("{}.{rel}", if h.kind == 0 { "rejected-late" } else { "rejected-early" });
+        }
+        // the redefined name TWICE in one rejected batch (two differently shifted versions, either
+        // order); 3 / 4: rejected because of a third member (late / early), 5 / 6: because of the
+        // second copy itself (late reference error / syntax error appended to it)
+        3..=6 => {
+            let shifted2 = format!("{}{}{}", h.prefix, h.prefix, tsrc);
+            let (a, b) = if h.prefix.len() % 2 == 0 { (shifted, shifted2) } else { (shifted2, shifted) };
+            let batch = match h.kind {
+                3 | 4 => vec![(tname.clone(), a), (tname.clone(), b), h.broken.clone()],
+                _ => vec![(tname.clone(), a), (tname.clone(), format!("{b}{}", h.broken.1))],
+            };
+            case.adds = vec![first, AddStep { templates: batch, expect_ok: false }];
+            case.history = format!("{}.{rel}", ["rejected-late-name-twice", "rejected-early-name-twice", "rejected-late-second-copy", "rejected-early-second-copy"][h.kind as usize - 3]);
         }
         _ => {
             case.adds = vec![first, AddStep { templates: vec![(tname.clone(), shifted.clone())], expect_ok: true }];
@@ -1351,6 +1419,7 @@ impl Case {
             "render_component": self.direct_component,
             "history_shape": self.history,
             "delimiters": self.delims.as_ref().map(|d| d.to_json()),
+            "route": if self.route == 1 { "files" } else { "raw" },
             "history": self.adds.iter().map(|a| json!({"add_raw_templates": a.templates.iter().map(|(n, s)| json!([n, s])).collect::<Vec<_>>(), "expect": if a.expect_ok { "ok" } else { "err" }})).collect::<Vec<_>>(),
             "rerun": "harness/target/release/c12 --replay <this file>",
         })
@@ -1399,6 +1468,7 @@ impl Case {
                 .unwrap_or_default(),
             history: j["history_shape"].as_str().unwrap_or("").to_string(),
             delims: D::from_json(&j["delimiters"]),
+            route: if j["route"].as_str() == Some("files") { 1 } else { 0 },
         })
     }
 }
@@ -1455,6 +1525,7 @@ fn build_case(set: &TSet, slot: usize, fault: &Fault) -> Case {
         adds: vec![],
         history: String::new(),
         delims: set.delims.clone(),
+        route: set.route,
     }
 }
 
@@ -1518,8 +1589,71 @@ fn observe(templates: &[(String, String)], entry: &str, context: &J, delims: &Op
     }
 }
 
+static FILE_CASE: std::sync::atomic::AtomicU64 = std::sync::atomic::AtomicU64::new(0);
+
+fn file_base_dir() -> std::path::PathBuf {
+    std::env::temp_dir().join(format!("tera_verif_c12_{}", std::process::id()))
+}
+
+/// A fresh directory for one case (removed by the caller).
+fn file_case_dir() -> std::path::PathBuf {
+    let n = FILE_CASE.fetch_add(1, std::sync::atomic::Ordering::SeqCst);
+    let d = file_base_dir().join(format!("c{n}"));
+    let _ = std::fs::create_dir_all(&d);
+    d
+}
+
+/// The file route: sources written to disk, registered under names that differ from the paths.
+fn observe_files(case: &Case) -> Obs {
+    let dir = file_case_dir();
+    let mut files: Vec<(std::path::PathBuf, Option<String>)> = Vec::new();
+    for (i, (name, src)) in case.templates.iter().enumerate() {
+        let p = dir.join(format!("f{i}.tpl"));
+        if std::fs::write(&p, src).is_err() {
+            let _ = std::fs::remove_dir_all(&dir);
+            return Obs { stage: "add", outcome: "diverged", panic_msg: "could not write the template file".into(), ..Default::default() };
+        }
+        files.push((p, Some(name.clone())));
+    }
+    let mut tera = new_tera(&case.delims);
+    let r = catch(std::panic::AssertUnwindSafe(|| tera.add_template_files(files)));
+    let _ = std::fs::remove_dir_all(&dir);
+    match r {
+        Err(p) => return Obs { stage: "add", outcome: "panic", panic_msg: p, ..Default::default() },
+        Ok(Err(e)) => return observe_err("add", &e),
+        Ok(Ok(())) => {}
+    }
+    let ctx = context_of(&case.context);
+    match catch(std::panic::AssertUnwindSafe(|| tera.render(&case.entry, &ctx))) {
+        Err(p) => Obs { stage: "render", outcome: "panic", panic_msg: p, ..Default::default() },
+        Ok(Err(e)) => observe_err("render", &e),
+        Ok(Ok(_)) => Obs { stage: "none", outcome: "ok", ..Default::default() },
+    }
+}
+
+/// One source through `add_template_file(path, name)`; returns the name it is registered under
+/// (the path itself for `None`) and what happened.
+fn observe_single_file(src: &str, name: Option<&str>) -> (String, Obs) {
+    let dir = file_case_dir();
+    let p = dir.join("single é.tpl");
+    let _ = std::fs::write(&p, src);
+    let reg = name.map(|n| n.to_string()).unwrap_or_else(|| p.to_string_lossy().into_owned());
+    let mut tera = Tera::default();
+    let r = catch(std::panic::AssertUnwindSafe(|| tera.add_template_file(&p, name)));
+    let _ = std::fs::remove_dir_all(&dir);
+    let obs = match r {
+        Err(pm) => Obs { stage: "add", outcome: "panic", panic_msg: pm, ..Default::default() },
+        Ok(Err(e)) => observe_err("add", &e),
+        Ok(Ok(())) => Obs { stage: "none", outcome: "ok", ..Default::default() },
+    };
+    (reg, obs)
+}
+
 /// Run the case: its history of `add_raw_templates` calls on one instance, then the render.
 fn observe_case(case: &Case) -> Obs {
+    if case.route == 1 && case.adds.is_empty() {
+        return observe_files(case);
+    }
     if case.adds.is_empty() {
         return observe(&case.templates, &case.entry, &case.context, &case.delims);
     }
@@ -1939,12 +2073,12 @@ fn run_seed(seed: u64, forced: Option<&str>, perturb: bool) -> Outcome {
         cands.push(0);
         cands.extend(idx_of(&plain.entry));
         let target = *rng.pick(&cands);
-        let kind = rng.below(3) as u8;
+        let kind = *rng.pick(&[0u8, 1, 2, 2, 3, 4, 5, 6]);
         let mut prefix = String::from("{# shifted ünï😀 #}");
         for _ in 0..1 + rng.below(4) {
             prefix.push_str(*rng.pick(&["\n", "\r\n", "  \n", "\t\n", "{# é #}\n"]));
         }
-        let broken = if kind == 1 {
+        let broken = if kind == 1 || kind == 4 || kind == 6 {
             ("zz_broken.html".to_string(), (*rng.pick(&["{{ a ^ }}", "{% if n %}", "é {{ `x }}"])).to_string())
         } else {
             ("zz_broken.html".to_string(), (*rng.pick(&["{{ 1 | no_such_filter }}", "{% if n is no_such_test %}{% endif %}", "{{ no_such_fn() }}", "{% include \"no/such\" %}", "{{ <no.such /> }}"])).to_string())
@@ -1978,6 +2112,10 @@ fn run_seed(seed: u64, forced: Option<&str>, perturb: bool) -> Outcome {
                 h.broken.1 = respell(&h.broken.1, &d);
             }
         }
+    }
+    // the file route: one syntax fault in four, one rendering fault in ten (those without a history)
+    if hist.is_none() && rng.chance(1, if fault.expect == Expect::Render { 10 } else { 4 }) {
+        set.route = 1;
     }
     let mut case = finish_case(&set, slot, &fault, &hist);
     let mut obs = observe_case(&case);
@@ -2363,6 +2501,7 @@ fn deep_case(kind: u8, depth: usize, caps: bool, fault: usize) -> Case {
         adds: vec![],
         history: String::new(),
         delims: None,
+        route: 0,
     }
 }
 
@@ -2433,6 +2572,7 @@ fn large_case(chunk: u8, fault: u8, lines: usize) -> Case {
         adds: vec![],
         history: String::new(),
         delims: None,
+        route: 0,
     }
 }
 
@@ -2683,6 +2823,7 @@ fn main() {
     let env = Env::from_env();
     if let Some(path) = replay_path() {
         replay(&path);
+        let _ = std::fs::remove_dir_all(file_base_dir());
         return;
     }
     let args: Vec<String> = std::env::args().collect();
@@ -2744,6 +2885,15 @@ fn main() {
             report.count(&format!("class.{}", c.class));
             report.count(&format!("role.{}", c.role));
             report.count(&format!("templates.{}", c.templates.len()));
+            if c.route == 1 {
+                report.count(&format!("file-route.batch-named.{}", if d.obs.outcome == "err" { d.obs.kind.as_str() } else { d.obs.outcome }));
+            }
+            if c.entry != c.host && c.entry.ends_with(c.host.as_str()) {
+                report.count("naming.entry-name-ends-with-host-name");
+            }
+            if c.chain.iter().any(|x| x.0 != c.host && x.0.ends_with(c.host.as_str())) {
+                report.count("naming.caller-name-ends-with-host-name");
+            }
             if let Some(d) = &c.delims {
                 report.count(&format!("delimiters.{}", d.fields().join(" ")));
                 if let Some(src) = c.src_of(&c.host) {
@@ -2947,16 +3097,31 @@ fn main() {
         let mut reqs: Vec<(&'static str, String, String, usize)> = Vec::new();
         for (i, src) in srcs.iter().enumerate() {
             let tpls = vec![("t".to_string(), src.clone())];
-            let obs = observe(&tpls, "t", &base_context(), &None);
+            let mut obs = observe(&tpls, "t", &base_context(), &None);
+            // every tenth source also goes through a file on disk: registered under its path
+            // (`None`) or under a name that differs from the path
+            let mut tname = "t".to_string();
+            if i % 10 == 0 {
+                let (n, o) = observe_single_file(src, None);
+                report.count("file-route.single-unnamed");
+                tname = n;
+                obs = o;
+            } else if i % 10 == 5 {
+                let (n, o) = observe_single_file(src, Some("named/t é.html"));
+                report.count("file-route.single-named");
+                tname = n;
+                obs = o;
+            }
+            let tpls = vec![(tname.clone(), src.clone())];
             report.evaluations += 1;
             let case = Case {
                 templates: tpls,
-                entry: "t".into(),
+                entry: tname.clone(),
                 context: base_context(),
                 class: "eof-adversarial".into(),
                 expect: Expect::Syntax,
                 cover: Cover::AtOrAfter,
-                host: "t".into(),
+                host: tname.clone(),
                 planted: 0..src.len(),
                 tok: 0..src.len(),
                 chain: vec![],
@@ -2966,6 +3131,7 @@ fn main() {
                 adds: vec![],
                 history: String::new(),
                 delims: None,
+                route: 0,
             };
             if obs.outcome == "ok" || (obs.outcome == "err" && obs.kind != "Syntax" && obs.kind != "Rendering") {
                 report.count(&format!("eof.not-a-report-error.{}", if obs.outcome == "ok" { "accepted" } else { obs.kind.as_str() }));
@@ -3205,5 +3371,6 @@ fn main() {
         report.notes.push("SELF-TEST RUN: the oracle's recomputation was deliberately perturbed (columns in bytes); violations are expected".into());
     }
     report.rule = "a case = (valid multi-template set built from the seeded generator, one planted fault); it is non-trivial when registering/rendering returned an error of kind SyntaxError / RenderingError (or the Msg-wrapped report of an unknown filter/test/function/component/include name) and every part of the direct oracle (kind, template name, range bounds and char boundaries, recomputed line/col, coverage rule of the class, display, call-site notes) was evaluated; distinct by hash of (all sources, host template, planted byte range); plus the end-of-source adversarial list".into();
+    let _ = std::fs::remove_dir_all(file_base_dir());
     report.write(&out_path());
 }
